@@ -30,7 +30,7 @@ from .. import core, escommon
 from ..gen import macros_c05 as G
 from ..gen import surface
 
-MODULES = ["ESV.Props.C05"]
+MODULES = ["ESV.Props.C05", "ESV.Props.C01Frontend"]
 THEOREMS = [
     "ESV.Beh.check_sound", "ESV.Beh.validate_sound",
     "ESV.C05.order_topological", "ESV.C05.all_acyclic_compile", "ESV.C05.cycle_detected_iff", "ESV.C05.visit_never_stops",
@@ -38,6 +38,9 @@ THEOREMS = [
     "ESV.C05.witness_acyclic", "ESV.C05.order_topological_counterexample", "ESV.C05.witness_does_not_compile",
     "ESV.C05.resolve_relative", "ESV.C05.resolve_absolute", "ESV.C05.resolve_lookup_first_match",
     "ESV.C05.resolve_lookup_none", "ESV.C05.resolve_rejects_dot_components",
+    # the property itself for ALL programs of the fragment F5 of the compiler model (no imports): a macro call = its body inlined
+    # (design_notes/C01_frontend.md, F5); the per-program verdicts stay the deciding method, `in_F5` counts the covered programs
+    "ESV.C01Frontend.codegen_correct_F5", "ESV.C01Frontend.compile_correct_F5", "ESV.Beh.E_sound",
 ]
 ROOT = G.ROOT
 FAKE_ROOT = "/T/R"      # two levels, like the real roots /tmp/<dir>
@@ -384,6 +387,20 @@ class Eval:
                 self.tags.append(("mm_inline",))
             elif self.inl_res is not None:
                 self.stats["inlined_program_not_compiled:" + str(self.inl_res.get("error") if isinstance(self.inl_res, dict) else "no_answer")] += 1
+        # coverage of the theorem compile_correct_F5 (for ALL programs of the decidable fragment F5Prog of the compiler model): how many
+        # of the compiled single-file programs are in it (`comp.tosrc`: F5Prog of the program lowered for the compiler model, and the
+        # tie toSrc(that program) = the core program the verdicts above are about)
+        if self.compiled and "error" not in doc and case["expect"] == "ok":
+            if len(case["files"]) != 1:
+                self.stats["F5:imports (not in the model)"] += 1
+            else:
+                try:
+                    from ..gen import complower
+                    ast1 = case["files"][case["main"]]
+                    self.requests.append({"op": "comp.tosrc", "prog": complower.program(ast1, res.get("macro_order")), "core": surface.lower_program(ast1)})
+                    self.tags.append(("f5",))
+                except Exception:  # noqa
+                    self.stats["F5:not_lowered"] += 1
         for e in res.get("log", []):
             f = rel_of(e["file"])
             ast = case["files"].get(f)
@@ -402,6 +419,19 @@ class Eval:
         res = self.res
         fe = failing_entry(res) if isinstance(res, dict) else None
         for tag, rep in zip(self.tags, replies):
+            if tag[0] == "f5":
+                if "error" in rep:
+                    self.stats["F5:driver_error"] += 1
+                elif rep.get("agree") is not True:
+                    self.stats["F5:tosrc_differs"] += 1
+                    self.ties.append(("toSrc of the compiler model's input differs from the core program lowered for the language semantics", {"case": self.case}))
+                elif rep.get("f5"):
+                    self.stats["in_F5"] += 1
+                    if rep.get("f4"):
+                        self.stats["in_F5_without_macros"] += 1
+                else:
+                    self.stats["not_F5:" + str(rep.get("f5why"))[:70]] += 1
+                continue
             if "error" in rep and tag[0] != "beh":
                 self.ties.append((f"Lean driver rejected a {tag[0]} request: {rep['error']}", {"case": self.case}))
                 continue
